@@ -1,8 +1,61 @@
 package main
 
-// replayModel turns a solver model of a function's entry state into a run of
-// the real code. Implemented per package where the entry state can be built
-// (scanner: see replay_scanner.go); empty string = no replay available.
+import (
+	_ "embed"
+	"encoding/json"
+	"fmt"
+	"os"
+	"os/exec"
+	"path/filepath"
+	"strings"
+)
+
+//go:embed replay_scanner_test.go.tmpl
+var replayScannerSrc string
+
+// replayModel turns a failed obligation of a scanner function into a search, on the REAL scanner, for an input that
+// observably violates the statement of C12/C13 (or panics): the state graph of the real scanner is explored breadth
+// first in an injected in-package test (`go test -overlay`, nothing is written to /repo) to find an input prefix that
+// reaches the state function of the obligation; the byte of the solver model (then every other byte) and a few
+// continuations are appended, and the whole input is scanned by the real Next under a monitor of the property.
+// Returns "" when no replay is available for this kind of function.
 func replayModel(eng *Engine, u *Unit, ob *Obligation, verifDir string) string {
-	return ""
+	if pkgPathOf(u.Fn) != modPath+"/scanner" || u.Fn.Signature.Recv() != nil && u.FType == nil {
+		return ""
+	}
+	if u.FType == nil {
+		return ""
+	}
+	cb := "0"
+	for _, l := range strings.Split(ob.Model, "\n") {
+		if strings.HasPrefix(l, "c = ") {
+			cb = strings.TrimSpace(l[4:])
+		}
+	}
+	tmp, err := os.MkdirTemp("", "govcreplay")
+	if err != nil {
+		return ""
+	}
+	defer os.RemoveAll(tmp)
+	testFile := filepath.Join(tmp, "zz_govc_replay_test.go")
+	_ = os.WriteFile(testFile, []byte(replayScannerSrc), 0o644)
+	ov := map[string]map[string]string{"Replace": {filepath.Join(eng.repo, "scanner", "zz_govc_replay_test.go"): testFile}}
+	ovb, _ := json.Marshal(ov)
+	ovFile := filepath.Join(tmp, "overlay.json")
+	_ = os.WriteFile(ovFile, ovb, 0o644)
+	cmd := exec.Command("go", "test", "-overlay", ovFile, "-vet=off", "-count=1", "-timeout", "120s", "-v", "-run", "TestGovcReplay", "./scanner")
+	cmd.Dir = eng.repo
+	cmd.Env = append(os.Environ(), "GOFLAGS=-mod=mod", "GOPROXY=off", "GOSUMDB=off", "GOTOOLCHAIN=local",
+		"GOVC_REPLAY_FN="+u.Fn.Name(), "GOVC_REPLAY_BYTE="+cb)
+	outB, _ := cmd.CombinedOutput()
+	var keep []string
+	for _, l := range strings.Split(string(outB), "\n") {
+		if strings.HasPrefix(l, "GOVC ") {
+			keep = append(keep, l[5:])
+		}
+	}
+	if len(keep) == 0 {
+		return "replay harness produced no result:\n" + string(outB)
+	}
+	return fmt.Sprintf("search on the real scanner (state %s, model byte %s):\n%s\n", u.Fn.Name(), cb, strings.Join(keep, "\n"))
 }
